@@ -52,6 +52,28 @@ WriteForward(b, j, e) ==
                       werr |-> e, n |-> b, err |-> e]
     /\ UNCHANGED wlim
 
+(* DRIVER MODES.  io.Copy(tw, src), io.WriteString, fmt.Fprintf (and whatever  *)
+(* optional interface the writer offers them: io.ReaderFrom, io.StringWriter, *)
+(* ...) decide themselves how the data is cut into Write calls.  The          *)
+(* environment sees the data being supplied (Supply) and the slices arriving  *)
+(* at w: ForwardPending(p, j, e) is "the p supplied bytes not yet passed on   *)
+(* are written".  The invariants apply as they are: w receives exactly the    *)
+(* first min(total, n) bytes, in order, and nothing once the limit is used    *)
+(* up.                                                                        *)
+Supply(c) ==
+    /\ total' = total + c
+    /\ UNCHANGED <<wlim, off, fwd, wlast>>
+
+ForwardPending(p, j, e) ==
+    /\ p > 0 /\ wlim - off > 0
+    /\ LET idx == Min(p, wlim - off) IN
+         /\ j \in 0..idx /\ e \in WErrs
+         /\ off' = off + idx
+         /\ fwd' = fwd + idx
+         /\ wlast' = [len |-> p, called |-> TRUE, req |-> idx, from |-> total - p, j |-> j,
+                      werr |-> e, n |-> p, err |-> e]
+    /\ UNCHANGED <<wlim, total>>
+
 Write(b) == WriteDropped(b) \/ \E j \in 0..b, e \in WErrs : WriteForward(b, j, e)
 
 WNext == /\ wsteps < WMaxSteps
